@@ -57,9 +57,13 @@ class Counted:
         for attributes in state if isinstance(state, tuple) else (state,):
             for name, value in (attributes or {}).items():
                 setattr(self, name, value)
-        if self._counted_class._counter is None:
-            self._counted_class._counter = itertools.count()
-        _reserve_count(self._counted_class, self._count)
+        # (some subclasses, e.g. BaseFormOperatorDerivative, never initialise a count)
+        counted_class = getattr(self, "_counted_class", None)
+        count = getattr(self, "_count", None)
+        if counted_class is not None and count is not None:
+            if counted_class._counter is None:
+                counted_class._counter = itertools.count()
+            _reserve_count(counted_class, count)
 
     def count(self):
         """Get count."""
